@@ -69,3 +69,32 @@ Example C07_examples :
   = [Some (Some 480); Some (Some 480); Some (Some 480); Some (Some 480);
      Some (Some 960); Some (Some 960)].
 Proof. vm_compute. reflexivity. Qed.
+
+(* built-in array primitives, the bilinear family (dot / matmul / tensordot / inner / outer / kron / two-operand einsum /
+   convolve / cross / multiply): the family is closed under differentiation - the reverse rules are bilinear primitives
+   with permuted structure constants - so the rules of the rules (second order, any mode sequence) are adjoints again, and
+   differentiating the reverse rule with respect to the cotangent gives back the forward map. *)
+From Coq Require Import Ring.
+From AG Require Import VSpace VSpaceProof Index Bilinear BilinearClosed.
+Theorem C07_bilinear_family_closed_under_differentiation :
+  forall (K : Type) (k0 k1 : K) (kadd kmul ksub : K -> K -> K) (kopp : K -> K),
+    ring_theory k0 k1 kadd kmul ksub kopp eq ->
+    (forall na S g B, vjpA K k0 kadd kmul na S g B = bil K k0 kadd kmul na (map (permA K) S) g B)
+    /\ (forall nb S g A, vjpB K k0 kadd kmul nb S g A = bil K k0 kadd kmul nb (map (permB K) S) g A)
+    /\ (forall na nb no S B g u,
+          List.Forall (in_bounds K na nb no) S -> length B = nb -> length g = no -> length u = na ->
+          dot K k0 kadd kmul u (vjpA K k0 kadd kmul na S g B) = dot K k0 kadd kmul (vjpA K k0 kadd kmul no (map (permA K) S) u B) g
+          /\ dot K k0 kadd kmul u (vjpA K k0 kadd kmul na S g B) = dot K k0 kadd kmul (vjpB K k0 kadd kmul nb (map (permA K) S) u g) B
+          /\ vjpA K k0 kadd kmul no (map (permA K) S) u B = bil K k0 kadd kmul no S u B)
+    /\ (forall na nb no S A g u,
+          List.Forall (in_bounds K na nb no) S -> length A = na -> length g = no -> length u = nb ->
+          dot K k0 kadd kmul u (vjpB K k0 kadd kmul nb S g A) = dot K k0 kadd kmul (vjpA K k0 kadd kmul no (map (permB K) S) u A) g
+          /\ dot K k0 kadd kmul u (vjpB K k0 kadd kmul nb S g A) = dot K k0 kadd kmul (vjpB K k0 kadd kmul na (map (permB K) S) u g) A).
+Proof.
+  intros K k0 k1 kadd kmul ksub kopp HR.
+  split; [exact (vjpA_is_bilinear K k0 kadd kmul)|].
+  split; [exact (vjpB_is_bilinear K k0 kadd kmul)|].
+  split; [exact (second_order_rules_adjoint K k0 k1 kadd kmul ksub kopp HR)|].
+  exact (second_order_rules_adjoint_B K k0 k1 kadd kmul ksub kopp HR).
+Qed.
+Print Assumptions C07_bilinear_family_closed_under_differentiation.
